@@ -1,9 +1,10 @@
 """C46 — Peering keeps reconnecting only while it should (spec/Peering)."""
-import json
+import json, os, re
 
 SPEC = "Peering"
 PKG = "peering"
 TEST = "TestVerifC46"
+TRACE_MODULE, TRACE_CFG = "TracePeering.tla", "TracePeering.cfg"
 
 META = dict(
     spec=SPEC,
@@ -34,19 +35,20 @@ def split_runs(recs):
     return runs
 
 
-def validate(ctx, recs, name, timeout, negative=False):
-    """accept with the smallest set of open deviations; anything else is a violation"""
+def validate(ctx, recs, name, timeout, negative=False, minimal=False):
+    """Accept with no deviation, else with the open ones (reported: those an accepting explanation used; with
+    minimal=True a single sufficient one is searched first).  Anything else is a violation."""
     tr = ctx.write_ndjson(name + ".ndjson", recs)
     od = sorted(ctx.open_devs())
-    tries = [()] + [(d,) for d in od] + ([tuple(od)] if len(od) > 1 else [])
+    tries = [()] + ([(d,) for d in od] if minimal and len(od) > 1 else []) + ([tuple(od)] if od else [])
     best = None
     for devs in tries:
-        res = ctx.tlc_trace(SPEC, "TracePeering.tla", "TracePeering.cfg", tr, timeout=timeout, devs=devs)
+        res = ctx.tlc_trace(SPEC, TRACE_MODULE, TRACE_CFG, tr, timeout=timeout, devs=devs)
         if res["timeout"]:
             ctx.broken("trace validation %s timed out" % name)
             return False
         if res["accepted"]:
-            used = set(devs)
+            used = set(re.findall(r'<<"DEV_USED", "(\w+)">>', res["out"])) & set(devs) if len(devs) > 1 else set(devs)
             for k in ctx.known_findings():
                 if k.get("status") == "open" and k["deviation"] in used:
                     ctx.deviation(k["deviation"], k.get("what", k["deviation"]))
@@ -60,8 +62,8 @@ def validate(ctx, recs, name, timeout, negative=False):
     h = best["hwm"]
     bad = recs[h] if h < len(recs) else None
     start = max([i for i in range(0, h + 1) if i < len(recs) and recs[i].get("ev") == "Reset"] or [0])
-    ctx.violation("recorded history %s rejected by TracePeering at event %d: %s (no explanation of the run satisfies "
-                  "the peering spec and its properties)" % (name, h + 1, json.dumps(bad)[:300]),
+    ctx.violation("recorded history %s rejected by %s at event %d: %s (no explanation of the run satisfies the spec "
+                  "and its properties)" % (name, TRACE_MODULE, h + 1, json.dumps(bad)[:300]),
                   dict(rejected_event_index=h, event=bad, run_prefix=recs[start:h + 1]),
                   name="trace_reject_%s.json" % name)
     return False
@@ -97,6 +99,8 @@ def run(ctx):
                        "recorded run is validated by TracePeering. non-trivial = run with a Connect call and an observed armed timer. "
                        "Backoff: all sequences in seconds (M), 12/150 recorded sequences of 100 calls (T)")
     allow = ("DevRunStart", "DevRunRStopc")
+    if os.environ.get("VERIF_SKIP_M"):      # self-test convenience: the model does not depend on the repo
+        return run_t(ctx)
     # ---- M
     ctx.tlc_mc(SPEC, "Peering.tla", "MCPeering.cfg" if q else "MCPeeringT.cfg", timeout=3000, coverage=not q, allow_zero=allow)
     ctx.tlc_mc(SPEC, "Backoff.tla", "MCBackoff.cfg", timeout=900, deadlock=False)
@@ -107,10 +111,15 @@ def run(ctx):
             if not (r["violated"] and want in r["violated"]):
                 ctx.broken("model sensitivity: %s should violate %s but gave %s" % (cfg, want, r["violated"]))
     ctx.cov["exhaustive"] = True
-    # ---- T
+    run_t(ctx)
+
+
+def run_t(ctx):
+    q = ctx.quick
     binp = ctx.go_build(PKG, ["peering/zz_verif_C46_test.go"])
-    for scen, to in (("directed", 600), ("random", 2400)):
-        recs, out, rc = ctx.go_run(binp, TEST, pkg=PKG, mode="record", env={"C46_SCEN": scen}, timeout=600)
+    allrecs = []
+    for scen, to in (("directed", 900), ("random", 3600)):
+        recs, out, rc = ctx.go_run(binp, TEST, pkg=PKG, mode="record", env={"C46_SCEN": scen}, timeout=900)
         if rc != 0 or not recs:
             ctx.broken("record driver (%s) died: rc=%s %s" % (scen, rc, out[-1500:]))
             return
@@ -119,7 +128,12 @@ def run(ctx):
                 ctx.nontrivial(scen + json.dumps(run_, sort_keys=True))
         if scen == "directed":
             ctx.sample(split_runs(recs)[0][:40])
-        validate(ctx, recs, scen, to, negative=(scen == "random"))
+        if q:
+            allrecs += recs
+        else:
+            validate(ctx, recs, scen, to, negative=(scen == "random"), minimal=True)
+    if q:
+        validate(ctx, allrecs, "all", 3600, negative=True)
     # ---- T: numeric backoff law
     recs, out, rc = ctx.go_run(binp, TEST, pkg=PKG, mode="record", env={"C46_SCEN": "backoff"}, timeout=300)
     if rc != 0 or not recs:
